@@ -20,7 +20,9 @@ RULE = ("programs = 2-4 constructed quantities (float/int/array/Decimal magnitud
         "family: length, time, angle, dimensionless, logarithmic, temperature; sometimes a foreign unit) + random "
         "operators (+ - * / ** neg; number operands on the right and on the LEFT = the reflected operators, numbers "
         "drawn from 0, 1, -1, 0.0, 1.0, 2, 0.5, 3; builtin sum() and math.prod() over 1-3 quantities with/without a "
-        "start quantity), == / !=, NumPy functions (sqrt cbrt power sin cos "
+        "start quantity; the augmented forms `y = x; y op= z` of all five operators), value(unit) and value(unit, dtype) with casts that succeed and casts that refuse AFTER the "
+        "conversion (list/tuple on scalars, int/int32 on nan/inf, a non-type), unconvertible and malformed unit strings, "
+        "occasional nan/inf magnitudes, == / !=, NumPy functions (sqrt cbrt power sin cos "
         "tan arcsin arccos arctan absolute floor ceil abs round sum isnan linspace logspace), value(unit), operands "
         "drawn from all live quantities incl. earlier results and x op x, interleaved with and followed by in-place "
         "methods (to text/BaseUnits/Quantity, rebase, abse, rele, in-place array writes) on every live quantity; "
@@ -49,7 +51,9 @@ ASSUMPTIONS = [
     "one-element list numpy returns the element itself) and is outside the property; np.sum(quantity) is covered",
     "the returned quantity is also judged directly on the real objects: it must not BE another live quantity nor "
     "hold the Magnitude object / value array / error array of one (C07_result_new, C07_result_separate)",
-    "operations that raise are checked too (operands must be unchanged); which exception is irrelevant",
+    "operations that raise — before or after a successful internal conversion — are judged by the oracle like any "
+    "other step (value/units/abse, converted values and BaseUnits fields of ALL live quantities unchanged); they are "
+    "not sent to the model (no quantity is created, no alias changes); which exception is irrelevant",
 ]
 EXPLANATION = ("theorems: heap invariant (every Magnitude owned by one quantity, every array by one Magnitude slot, "
                "error array only with value array) preserved by every operation for all unit-algebra facts; every "
@@ -61,7 +65,7 @@ FAMILIES = {
     "length": ["m", "cm", "km", "mm", "m", "cm"],
     "time": ["s", "ms", "min", "h"],
     "angle": ["deg", "rad", "deg", "'"],
-    "nodim": [None, "%", None, "ppth"],
+    "nodim": [None, "%", None, "ppth", "m/cm", "s/ms"],      # ratio units survive only through to()
     "log": ["dBm", "dBm", "dBmW", "dBW", "Bm"],
     "temp": ["K", "Cel", "K", "degF"],
     "area": ["m2", "cm2", "m*cm"],
@@ -167,12 +171,14 @@ def gen_prog(rng, maxops):
             op = rng.choice(["add", "sub", "mul", "div", "add", "sub"])
             i = var()
             j = i if rng.random() < 0.15 else var()
-            prog.append(["bin", op, i, j])
+            prog.append(["bin", op, i, j] + (["aug"] if rng.random() < 0.15 else []))
             nvars += 1
         elif r < 0.40:
             # number operand on the right AND on the left (reflected operators), neutral / absorbing numbers incl.
             op = rng.choice(["mul", "div", "add", "sub", "add", "mul", "pow"])
-            prog.append(["binnum", op, var(), rng.choice(NUMBERS), rng.random() < 0.5])
+            refl = rng.random() < 0.5
+            # `y = x; y *= number` (augmented form): rebinding on this library, so `x` must stay what it was
+            prog.append(["binnum", op, var(), rng.choice(NUMBERS), refl] + (["aug"] if not refl and rng.random() < 0.3 else []))
             nvars += 1
         elif r < 0.44:
             # builtin sum() / math.prod() over 1-3 quantities, with or without a start quantity
@@ -310,10 +316,22 @@ def converted(q, alts):
     return out
 
 
+def units_obs(q):
+    """units as reported: the expression and, when it says more, the plain dictionary `baseunits.value()`"""
+    expr = q.units()
+    try:
+        d = q.baseunits.value()
+        plain = "*".join("%s%s" % (k.replace(":", ""), "" if v == 1 else (v if not isinstance(v, tuple) else "%s:%s" % v))
+                         for k, v in d.items())
+    except Exception:
+        plain = "?"
+    return expr if (expr or "") == plain else "%s {%s}" % (expr, plain)
+
+
 def observe(q, alts=()):
     """what the property observes: value(), units(), abse() — exact, no tolerance, Python type included —
     plus value(other unit) for other units of the same dimension"""
-    return [canon_val(q.value()), q.units(), canon_val(q.abse()), converted(q, alts)]
+    return [canon_val(q.value()), units_obs(q), canon_val(q.abse()), converted(q, alts)]
 
 
 def bu_fields(b):
@@ -418,7 +436,7 @@ class Impl:
             if q is None:
                 out.append(None)
                 continue
-            base = [canon_val(q.value()), q.units(), canon_val(q.abse())]
+            base = [canon_val(q.value()), units_obs(q), canon_val(q.abse())]
             key = json.dumps([base, bu_fields(q.baseunits)], default=str)
             if key not in self.conv_cache:
                 self.conv_cache[key] = converted(q, self.alts)
@@ -504,6 +522,10 @@ class Impl:
             emit(["new", vk == "array", abse is not None, facts])
             self.add_var(q, "new")
             return
+        import operator
+        aug = (kind == "bin" and len(op) > 4) or (kind == "binnum" and len(op) > 5)
+        IOP = {"add": operator.iadd, "sub": operator.isub, "mul": operator.imul, "div": operator.itruediv,
+               "pow": operator.ipow}
         if kind == "binnum" and op[1] == "pow":
             # `x ** number` is __pow__; `number ** x` has no reflected method in the library (raises)
             x = V(op[2])
@@ -515,11 +537,14 @@ class Impl:
                 facts = dim_facts(x.baseunits * n_)
             except Exception:
                 pass
-            ok, r = call((lambda: n_ ** x) if op[4] else (lambda: x ** n_))
+            ok, r = call((lambda: n_ ** x) if op[4] else ((lambda: operator.ipow(x, n_)) if aug else (lambda: x ** n_)))
             if not ok:
                 raise _Skip()
             if op[4]:
-                raise _Broken("number ** quantity returned a value; the model has no such operation")
+                # the library has no reflected power today; should one appear, it is outside the model (its
+                # operand is still judged by the oracle) — never a reason to fail the check
+                rec["unmodelled"] = True
+                raise _Skip()
             emit(["pow", self.mi(op[2]), facts])
             self.add_var(r, "pow")
             return
@@ -603,7 +628,11 @@ class Impl:
                     facts.update(dim_facts(a.baseunits + b.baseunits if name == "mul" else a.baseunits - b.baseunits))
                 except Exception:
                     pass
-            if kind == "bin":
+            if aug:
+                # the augmented statement `y = a; y op= b`: Python falls back to the binary operator and rebinds
+                lhs, rhs = (a, b) if kind == "bin" else (V(op[2]), op[3])
+                f = lambda: IOP[name](lhs, rhs)
+            elif kind == "bin":
                 f = {"add": lambda: a + b, "sub": lambda: a - b, "mul": lambda: a * b, "div": lambda: a / b}[name]
             else:
                 n_ = op[3]
@@ -612,7 +641,7 @@ class Impl:
                     f = {"add": lambda: n_ + x, "sub": lambda: n_ - x, "mul": lambda: n_ * x, "div": lambda: n_ / x}[name]
                 else:
                     f = {"add": lambda: x + n_, "sub": lambda: x - n_, "mul": lambda: x * n_, "div": lambda: x / n_}[name]
-            rec["name"] = name
+            rec["name"] = name + ("=" if aug else "")
             ok, r = call(f)
             if not ok:
                 raise _Skip()           # raised: nothing is created on either side (operands still judged)
